@@ -33,27 +33,20 @@ Proof. reflexivity. Qed.
 
 Opaque IOV_MAX.
 
-(* The operations whose ring submission means what the thread pool does. *)
-Definition ring_exact (op : fsop) : Prop :=
-  match op with
-  | OFtruncate _ off => off = 0      (* see sqe_ftruncate_wrong below *)
-  | _ => True
-  end.
-
 (* Per operation: the SQE that uv__iou_fs_* fills in denotes, by the documented
    meaning of its opcode, the very call that uv__fs_work makes (the first call,
    for UV_FS_WRITE). *)
 Theorem sqe_meaning :
-  forall kv op s, sqe_of kv op = Some s -> api_check op = None -> ring_exact op ->
+  forall kv op s, sqe_of kv op = Some s -> api_check op = None ->
   norm (kernel_of_sqe s) = norm (work op).
 Proof.
-  intros kv op s Hs Ha Hx.
+  intros kv op s Hs Ha.
   destruct op; simpl in Hs; try discriminate.
   - (* close *) destruct (kv_close_ok kv); inversion Hs; reflexivity.
   - (* fdatasync *) inversion Hs; reflexivity.
   - (* fstat *) inversion Hs; reflexivity.
   - (* fsync *) inversion Hs; reflexivity.
-  - (* ftruncate *) simpl in Hx. subst off. destruct (kv_ge kv 395520); inversion Hs; reflexivity.
+  - (* ftruncate *) destruct (kv_ge kv 395520); inversion Hs; reflexivity.
   - (* lstat *) inversion Hs; reflexivity.
   - (* link *) destruct (kv_ge kv 331520); inversion Hs; reflexivity.
   - (* mkdir *) destruct (kv_ge kv 331520); inversion Hs. cbn.
@@ -103,28 +96,30 @@ Proof.
         -- destruct bufs as [|b [|b2 bs]]; simpl in *; try congruence; discriminate.
 Qed.
 
-(* uv__iou_fs_ftruncate puts the length into sqe->len; the kernel takes it from
-   sqe->off and rejects a non-zero sqe->len: for every length that is not a
-   multiple of 2^32 the SQE is invalid, for the other non-zero ones it
-   truncates to 0. *)
-Theorem sqe_ftruncate_wrong :
-  forall kv fd off s, sqe_of kv (OFtruncate fd off) = Some s -> off <> 0 ->
-  norm (kernel_of_sqe s) <> norm (work (OFtruncate fd off)) /\
-  (off mod two32 <> 0 -> kernel_of_sqe s = PInvalid IORING_OP_FTRUNCATE).
+(* History: before the repair uv__iou_fs_ftruncate put the length into sqe->len.
+   The kernel takes it from sqe->off and rejects a non-zero sqe->len, so for
+   every length that is not a multiple of 2^32 that SQE was invalid (EINVAL),
+   and for the other non-zero ones it truncated to 0. *)
+Definition old_ftruncate_sqe (fd off : Z) : sqe :=
+  mkSqe IORING_OP_FTRUNCATE fd 0 ANull ANull (off mod two32) 0.
+
+Theorem old_sqe_ftruncate_wrong :
+  forall fd off, off <> 0 ->
+  norm (kernel_of_sqe (old_ftruncate_sqe fd off)) <> norm (work (OFtruncate fd off)) /\
+  (off mod two32 <> 0 -> kernel_of_sqe (old_ftruncate_sqe fd off) = PInvalid IORING_OP_FTRUNCATE).
 Proof.
-  intros kv fd off s Hs Ho. simpl in Hs.
-  destruct (kv_ge kv 395520); inversion Hs; subst s; clear Hs.
+  intros fd off Ho. unfold old_ftruncate_sqe.
   cbn. destruct (off mod two32 =? 0) eqn:E; cbn.
   - split; [intros H; inversion H; congruence|]. apply Z.eqb_eq in E. congruence.
   - split; [discriminate|reflexivity].
 Qed.
 
 Lemma kernel_not_invalid kv op s :
-  sqe_of kv op = Some s -> api_check op = None -> ring_exact op ->
+  sqe_of kv op = Some s -> api_check op = None ->
   forall o, kernel_of_sqe s <> PInvalid o.
 Proof.
-  intros Hs Ha Hx o H.
-  pose proof (sqe_meaning _ _ _ Hs Ha Hx) as Hm. rewrite H in Hm. simpl in Hm.
+  intros Hs Ha o H.
+  pose proof (sqe_meaning _ _ _ Hs Ha) as Hm. rewrite H in Hm. simpl in Hm.
   destruct op; simpl in Hs; try discriminate; simpl in Hm; try discriminate.
   - unfold work, read_call in Hm.
     destruct (off <? 0); destruct (_ =? 1)%nat; try discriminate;
@@ -196,17 +191,17 @@ Qed.
    same resulting state, for every oracle, state and kernel version. *)
 Theorem routes_agree :
   forall kv fuel op st,
-  ring_exact op -> is_write op = false ->
+  is_write op = false ->
   special op (fst (posix (work op) st)) = false ->
   -1 <= rc out (fst (posix (work op) st)) ->
   run RRing true kv fuel op st = run RPool true kv fuel op st /\
   run RSync true kv fuel op st = run RPool true kv fuel op st.
 Proof.
-  intros kv fuel op st Hx Hw Hsp Hwf. split; [|reflexivity].
+  intros kv fuel op st Hw Hsp Hwf. split; [|reflexivity].
   unfold Fs.run. destruct (api_check op) eqn:Ha; auto.
   destruct (sqe_of kv op) as [s|] eqn:Hs; auto.
-  pose proof (sqe_meaning _ _ _ Hs Ha Hx) as Hm.
-  pose proof (kernel_not_invalid _ _ _ Hs Ha Hx) as Hni.
+  pose proof (sqe_meaning _ _ _ Hs Ha) as Hm.
+  pose proof (kernel_not_invalid _ _ _ Hs Ha) as Hni.
   unfold ring_complete.
   assert (Hk : posix (kernel_of_sqe s) st = posix (work op) st)
     by (rewrite posix_norm, Hm, <- posix_norm; reflexivity).
@@ -293,8 +288,8 @@ Proof.
   assert (Hs : exists s, sqe_of kv op = Some s).
   { simpl. apply Nat.ltb_ge in Hlen. rewrite Hlen. eauto. }
   destruct Hs as [s Hs]. rewrite Hs.
-  pose proof (sqe_meaning _ _ _ Hs Ha I) as Hm.
-  pose proof (kernel_not_invalid _ _ _ Hs Ha I) as Hni.
+  pose proof (sqe_meaning _ _ _ Hs Ha) as Hm.
+  pose proof (kernel_not_invalid _ _ _ Hs Ha) as Hni.
   unfold ring_complete.
   assert (Hk : posix (kernel_of_sqe s) st = posix (work op) st)
     by (rewrite posix_norm, Hm, <- posix_norm; reflexivity).
